@@ -163,6 +163,17 @@ CHECKS = {
          "depth gate; Vh formula and real GP behaviour outside",
     technique="symbolic execution of the real numpy code on z3 reals + SMT (QF_LRA); exhaustive path exploration of the run loop",
     design_ref="DESIGN.md §3 C18"),
+ "C08": dict(
+    text="Clause B (model checking): the real run_one_step / P code of NaiveElimination on symbolic observation blocks — after "
+         "every round the stored samples are exactly the returned observations and P is proved (z3) to be the exact Pareto set "
+         "of the arithmetic means; accounting and termination on every path. Clause A (formula level): the symbolic term the "
+         "real constructor computes for the default L (symbolic noise variance and ε; θ, δ, K on a grid) is proved (NRA) to "
+         "dominate the necessary sample count of the two-design instance with gap just above ε; refutations are confirmed by "
+         "the closed-form failure probability of that instance on the real class.",
+    note=REAL + "clause A is a necessary condition (two-design instance, Gaussian noise); sufficiency for arbitrary design sets "
+         "is the paper's lemma; K=3, L<=3 for clause B",
+    technique="symbolic execution of the real numpy code on z3 reals + SMT (QF_LRA / NRA with an integer ceil)",
+    design_ref="DESIGN.md §3 C08"),
 }
 
 _WIP = "check not built yet (work in progress; will be claimed once its harness exists)"
